@@ -76,7 +76,7 @@ Qed.
 
 (* ---------------- property / keys, one layer at a time ---------------- *)
 Lemma property_cons_nonobj k l r : is_lobj l = false ->
-  property k (l :: r) = if l_unk l then unknown_layer false (sch_property sch_fuel k (top_sch (l :: r))) :: property k r else [].
+  property k (l :: r) = if l_unk l then unknown_layer false (sch_property (sch_depth (top_sch (l :: r))) k (top_sch (l :: r))) :: property k r else [].
 Proof. destruct l; [reflexivity|reflexivity|discriminate]. Qed.
 
 Lemma property_cons_obj k s u sc p r :
